@@ -1,5 +1,6 @@
 import Driver.Util
 import Bifrost.Model.Links
+import Bifrost.Model.LinksConc
 namespace Driver.Links
 open Bifrost Bifrost.Links Driver
 
@@ -21,6 +22,16 @@ def ids (l : List Link) : String := showNatList (sortNat (l.map (·.id)))
 
 def dedup (l : List Nat) : List Nat := l.foldl (fun acc x => if acc.contains x then acc else acc ++ [x]) []
 
+/-- a batch: per-goroutine op sequences separated by `/` (`_` = empty sequence) -/
+def parseBatch (s : String) : Option (List (List Op)) := (s.splitOn "/").mapM parseOps
+
+/-- `live:bypeer:closed` (sorted id lists; `bypeer` keeps multiplicities) -/
+def showState (s : State) : String :=
+  s!"{ids s.links}:{ids s.peerLinks}:{showNatList (sortNat (dedup s.closed))}"
+
+def dedupStr (l : List String) : List String :=
+  l.foldl (fun acc x => if acc.contains x then acc else acc ++ [x]) []
+
 def handle (op : String) (args : List String) : Option String :=
   match op with
   | "hist" => do
@@ -37,6 +48,22 @@ def handle (op : String) (args : List String) : Option String :=
     let ops ← (kv args "ops").bind parseOps
     let p ← kvNat args "p"
     some s!"ok {ids (getPeerLinks (run ops) p)}"
+  | "linearize" => do
+    -- all distinct final states of the batch `g` delivered after the sequential prefix `pre`
+    let pre ← (kv args "pre").bind parseOps
+    let gs ← (kv args "g").bind parseBatch
+    if batchSize gs > 8 then none else
+    let fs := finals (run pre) gs
+    some s!"n={fs.length} states={"|".intercalate (dedupStr (fs.map showState))}"
+  | "resolvebus" => do
+    -- several controllers on one bus: `cs` = their histories separated by `/`
+    let cs ← (kv args "cs").bind parseBatch
+    let src ← kvNat args "src"
+    let dst ← kvNat args "dst"
+    let r := resolveBus (cs.map run) src dst
+    let enc := sortNat (r.map fun p => p.1 * 1000000 + p.2.id)
+    let items := enc.map fun n => s!"{n / 1000000}:{n % 1000000}"
+    some s!"ok {if items.isEmpty then "_" else ",".intercalate items}"
   | _ => none
 
 end Driver.Links
